@@ -2018,7 +2018,7 @@ func (s *sim) finishCall() {
 			}
 		}
 		for _, r := range c.replies {
-			if r.blk != nil && r.blk.hash != b.hash && (r.reqH == h || (r.reqH == 0 && servers[r.prov] == 0)) {
+			if differs(r, b) {
 				conflicting = true
 			}
 		}
@@ -2141,11 +2141,11 @@ func (s *sim) finishCall() {
 				}
 				idx, first := -1, -1
 				for i, r := range c.replies {
-					if r.prov != prim && r.blk != nil && r.reqH == target.h && r.blk.hash != target.hash {
+					if r.prov != prim && differs(r, target) {
 						if first < 0 {
 							first = i // earliest differing answer of any witness (whatever its height)
 						}
-						if r.prov == w && idx < 0 && r.blk.h == target.h && !r.late {
+						if r.prov == w && idx < 0 && r.reqH == target.h && r.blk.h == target.h && !r.late {
 							idx = i
 						}
 					}
@@ -2199,14 +2199,14 @@ func (s *sim) finishCall() {
 		if b, ok := post[target.h]; ok && b.hash == target.hash && target.h <= s.ch.tip && s.ch.info[target.h].t.Before(c.now.Add(s.drift)) {
 			first := -1
 			for i, r := range c.replies {
-				if r.prov == prim || r.blk == nil || r.reqH != target.h || r.blk.hash == target.hash {
+				if r.prov == prim || !differs(r, target) {
 					continue
 				}
 				if first < 0 {
 					first = i
 				}
 				pc := s.provCfgs[r.prov]
-				if pc.kind == "hon" && r.blk.canon && r.blk.h == target.h && pc.base <= t0.h {
+				if pc.kind == "hon" && r.blk.canon && r.reqH == target.h && r.blk.h == target.h && pc.base <= t0.h {
 					sig := "attack-undetected"
 					if first < i {
 						sig = "attack-undetected-masked"
@@ -2292,6 +2292,19 @@ func (s *sim) finishCall() {
 		}
 	}
 	e.State(c.kind, c.retErr == nil, attack, len(newHs), bis, prim != primAfter, len(c.replies) > 6, s.seq, len(s.client.Witnesses()))
+}
+
+// differs: does this answer of a witness conflict with header b of height b.h? Either it was
+// asked for that height and returned something else, or it was asked for its latest block
+// and returned another block of that height or a lower block that is not older.
+func differs(r reply, b *binfo) bool {
+	if r.blk == nil || r.blk.hash == b.hash {
+		return false
+	}
+	if r.reqH == b.h {
+		return true
+	}
+	return r.reqH == 0 && (r.blk.h == b.h || (r.blk.h < b.h && !r.blk.t.Before(b.t)))
 }
 
 func replySummary(c *call, h int64) string {
